@@ -64,6 +64,15 @@ def build_items(tier, seed, facts=False, cases=('lower', 'lower', 'upper', 'mixe
     for k, ((home, _, incomp), o) in enumerate(zip(progs, out)):
         items.append({'home': home, 'body': o['body'], 'toks': o['toks'], 'seed': rnd.randint(0, 10 ** 6),
                       'case': cases[k % len(cases)], 'layout': ['mixed', 'plain'][k % 2], 'facts': facts, 'strict': strict, 'incomp': incomp})
+    if not strict:
+        # every fourth model holds a second generated body (one written for a function or a bridge, without messages
+        # across ports) and is prebuilt as a whole (prebuild_model)
+        donors = [it for it in items if it['home'] in ('func', 'bridge') and not it['incomp']]
+        for k, it in enumerate(items):
+            if k % 4 == 1 and donors:
+                d = donors[k % len(donors)]
+                if d is not it:
+                    it['other'] = {key: d[key] for key in ('body', 'toks', 'seed', 'case', 'layout')}
     return items
 
 
@@ -99,7 +108,9 @@ def run(pid, tier, replay_path, facts, rule, model, assumptions, module='OalTrac
         else:
             e = v.event()
             sig = {'clause': v.clause, 'home': e['home'], 'err': e['err'].split(':')[0][:60]}
-            rep.failure(sig, {'item': r['items'][min(v.step, len(r['items'])) - 1], 'text': e['text'], 'generated': e['gen'], 'err': e['err'],
+            # (an item that holds a second body contributes two events)
+            owners = [it for it in r['items'] for _ in range(2 if it.get('other') else 1)]
+            rep.failure(sig, {'item': owners[min(v.step, len(owners)) - 1], 'text': e['text'], 'generated': e['gen'], 'err': e['err'],
                               'clause': v.clause, 'real': e['real'], 'facts': e.get('facts'), 'casediff': e.get('casediff'),
                               'spec_expected': repr(v.expected)[:3000]})
     rc = rep.finish()
